@@ -272,7 +272,13 @@ def lane_flow(rep, repo, mod):
 def dataset_selection(rep, repo, mod):
     rep.rule('C06.dataset', 'delay dataset: skipped for a single dataset; mode 0 -> delays[seed], mode 1 -> delays[simctl_int[0]], else hash-picked index modulo len(delays); afterwards only the selected slice is used')
     K = Kernel(repo)
+    evaluated = dataset_selection_evaluated(rep, mod, K)
     sel = [s for s in K.prologue if isinstance(s, ast.If) and cz(s.test) == 'len(delays)>1']
+    if evaluated:
+        if len(sel) == 1:
+            dataset_dtype_flow(rep, mod, K, sel[0])
+        dataset_host_side(rep, mod, K, sel[0] if len(sel) == 1 else None)
+        return
     if len(sel) != 1:
         rep.violate('C06.dataset', mod, K.f, 'if len(delays) > 1', 'the dataset selection `if len(delays) > 1:` was not found', node=K.f)
         return
@@ -296,6 +302,15 @@ def dataset_selection(rep, repo, mod):
         mix_ok = names == {'_rnd'}      # the mixing loop only stirs _rnd with constants
     srcs = {x.id for x in ast.walk(orelse[0]) if isinstance(x, ast.Name)} - {'int'} if orelse else set()
     ok = len(e) == 3 and mix_ok and srcs == {'_rnd', 'seed', 'z_idx', 'simctl_int'} and e[2] == 'delays=delays[_rnd%len(delays)]'
+    dataset_dtype_flow(rep, mod, K, s)
+    rep.ob('C06.dataset', 'mode 2 -> hash(seed, line, lane seed) modulo len(delays)', ok)
+    if not ok:
+        rep.violate('C06.dataset', mod, K.f, orelse[-1] if orelse else 'else', 'random mode must hash (seed, z_idx, simctl_int[0]) and take the result modulo len(delays)', node=s)
+    dataset_host_side(rep, mod, K, s)
+
+
+def dataset_dtype_flow(rep, mod, K, s):
+    arms, orelse = flatten_if_chain(s.body[0]) if s.body and isinstance(s.body[0], ast.If) else ([], [])
     # dtype flow: elements of the int32 op/control arrays are numpy int32 scalars; NumPy 2 refuses to combine them with a Python
     # integer that does not fit int32 (the LCG multiplier). Every array-derived operand of the seed must be converted with int().
     if orelse:
@@ -315,13 +330,13 @@ def dataset_selection(rep, repo, mod):
         if not okd:
             rep.violate('C06.dataset', mod, K.f, orelse[0], f'the dataset hash combines the int32 array element(s) {sorted(set(raw))} with the integer constant {big[0].value} which does not fit int32: '
                         f'NumPy 2 raises OverflowError in the pure-Python code path (default selection mode with more than one delay dataset)', node=orelse[0])
-    rep.ob('C06.dataset', 'mode 2 -> hash(seed, line, lane seed) modulo len(delays)', ok)
-    if not ok:
-        rep.violate('C06.dataset', mod, K.f, orelse[-1] if orelse else 'else', 'random mode must hash (seed, z_idx, simctl_int[0]) and take the result modulo len(delays)', node=s)
+
+
+def dataset_host_side(rep, mod, K, s):
     # first use of delays as a 3-index array comes after the selection
     first = None
     for st in K.prologue:
-        if st is s:
+        if s is not None and st is s:
             break
         if any(isinstance(x, ast.Subscript) and is_name(x.value, 'delays') for x in ast.walk(st)):
             first = st
@@ -342,6 +357,68 @@ def dataset_selection(rep, repo, mod):
     rep.ob('C06.dataset', 'signal memory starts as TMAX (empty waveforms: zero line reads constant 0), s has 11 rows', ok)
     if not ok:
         rep.violate('C06.dataset', mod, wi, 'self.c / self.s', 'WaveSim.c must start as TMAX everywhere (every waveform empty, in particular the zero line) with one column per lane; s has 11 rows', node=wi)
+
+
+
+def dataset_selection_evaluated(rep, mod, K):
+    """Decide the selection by evaluating the kernel's own statements (Engine M) for every selection mode, with one and with
+    three datasets, instead of recognising one spelling. Returns False (nothing recorded) if the statements are outside
+    the evaluator's subset; the caller then falls back to the structural form of the rule."""
+    from kvstatic import minieval
+    from kvstatic.core import ModelError as _ME
+    binds = [k for k, st in enumerate(K.prologue) if any(isinstance(n, ast.Name) and n.id == 'delays' and isinstance(n.ctx, ast.Store) for n in ast.walk(st))]
+    reads = [k for k, st in enumerate(K.prologue) if any(isinstance(n, ast.Name) and n.id == 'delays' for n in ast.walk(st))]
+    if not binds:
+        return False
+    window = K.prologue[:max(binds) + 1]
+
+    def run(nd, mode, seed, zidx, lane):
+        env = {'delays': [f'D{k}' for k in range(nd)], 'simctl_int': [lane, mode], 'seed': seed, 'op': [0, zidx, 1, 2, 3, 4, 0, 0, 0], 'sim': 0}
+        for nm, col in K.col.items():
+            env[nm] = env['op'][col]
+        for st in window:
+            try:
+                minieval.run([st], env)
+            except _ME:
+                if any(isinstance(n, ast.Name) and n.id == 'delays' for n in ast.walk(st)):
+                    raise       # the selection itself is outside the subset
+        return env['delays']
+
+    def spec(nd, mode, seed, zidx, lane):
+        if nd == 1:
+            return 'D0'
+        if mode == 0:
+            return f'D{seed}'
+        if mode == 1:
+            return f'D{lane}'
+        r = (seed << 4) + (zidx << 20) + lane
+        for _ in range(4):
+            r = 0xDEECE66D * r + 0xB
+        return f'D{r % nd}'
+    cases = [(1, m, sd, 5, 0) for m in (0, 1, 2) for sd in (0, 1)] + [(3, 0, sd, 5, 1) for sd in (0, 1, 2)] + [(3, 1, 1, 5, ln) for ln in (0, 1, 2)] \
+        + [(3, 2, sd, z, ln) for sd in (0, 1, 7) for z in (1, 5, 30) for ln in (0, 1, 2)] + [(3, 3, 1, 5, 2), (5, 2, 3, 9, 4)]
+    results = []
+    try:
+        for c in cases:
+            try:
+                got = run(*c)
+            except (IndexError, KeyError, TypeError, ZeroDivisionError) as e:
+                got = f'{type(e).__name__}'
+            results.append((c, got, spec(*c)))
+    except _ME:
+        return False
+    groups = {'single dataset -> delays[0]': [r for r in results if r[0][0] == 1],
+              'mode 0 -> delays[seed]; mode 1 -> delays[simctl_int[0]]': [r for r in results if r[0][0] > 1 and r[0][1] in (0, 1)],
+              'mode 2 -> hash(seed, line, lane seed) modulo len(delays)': [r for r in results if r[0][0] > 1 and r[0][1] >= 2]}
+    for label, rs in groups.items():
+        bad = [r for r in rs if r[1] != r[2]]
+        rep.ob('C06.dataset', f'{label} (evaluated on {len(rs)} cases)', not bad, evals=len(rs))
+        if bad:
+            (nd, mode, seed, zidx, lane), got, want = bad[0]
+            rep.violate('C06.dataset', mod, K.f, label, f'dataset selection: with {nd} dataset(s), simctl_int[1]={mode}, seed={seed}, output line {zidx}, simctl_int[0]={lane} the kernel '
+                        f'continues with {got} but must use {want} ({label})', witness={'datasets': nd, 'mode': mode, 'seed': seed, 'z_idx': zidx, 'simctl_int[0]': lane, 'got': got, 'want': want},
+                        node=window[0])
+    return True
 
 
 def options(rep, repo):
